@@ -23,6 +23,7 @@ from sim.runner import violation
 EPS = np.finfo(float).eps
 RAISING = ('mul0', 'rmul0', 'add_str', 'mul_str', 'mul_list', 'add_none',
            'mul_complex', 'add_dict', 'np_rmul0', 'np_mul0')
+NOT_IDENT = ('add_tiny', 'radd_tiny', 'mul_near1', 'div_near1')
 IDENT = ('add0', 'radd0', 'sub0', 'mul1', 'rmul1', 'div1', 'add0.0',
          'mul1.0', 'np_radd0', 'np_rmul1', 'np_mul1', 'np_int_rmul1')
 
@@ -211,7 +212,8 @@ class C14:
             elif c < 0.88:
                 pr = rng.choice(pool + derived[-2:])
                 b.emit('prior_identity',
-                       {'pr': pr, 'kind': rng.choice(IDENT + RAISING)},
+                       {'pr': pr, 'kind': rng.choice(IDENT + RAISING +
+                                                    NOT_IDENT)},
                        tags={'k': 'identity', 'identity': True})
             elif c < 0.94:
                 prs = [rng.choice(pool) for _ in range(rng.randint(1, 4))]
@@ -815,6 +817,16 @@ class C14:
                         kind, rec['outcome'], rec.get('exc') or
                         rec.get('payload')),
                     sig='C14.algebra:raise:' + kind))
+            return
+        if kind in NOT_IDENT:
+            if rec['outcome'] != 'ok' or rec['payload'] is not False:
+                ex.add(violation(
+                    'C14.algebra', ev['id'],
+                    'prior %s (not an identity operation) returned the '
+                    'prior itself (%s %s)' % (kind, rec['outcome'],
+                                              rec.get('exc') or
+                                              rec.get('payload')),
+                    sig='C14.algebra:not-identity:' + kind))
             return
         if rec['outcome'] != 'ok' or rec['payload'] is not True:
             ex.add(violation(
